@@ -499,7 +499,7 @@ func writeReplay(e *Engine, prop string, o *Obl) string {
 		"solver_output": trunc(o.Result.Raw, 4000), "model": trunc(o.Result.Model, 8000), "paths": traces,
 		"smt_file": filepath.Join(e.outDir, "smt", sanitizeFile(o.Name)+".smt2"), "replay_confirmed": false,
 	}
-	if o.Result.Status == "sat" {
+	if o.Replay != nil {
 		if ok, out := tryReplay(e, prop, o); out != "" {
 			rep["replay_confirmed"] = ok
 			rep["replay_output"] = trunc(out, 6000)
